@@ -15,7 +15,7 @@ RULE = ("random nondeterministic PDAs (<=3 states, <=2 stack symbols, <=6 transi
         "to_empty_stack and chains of them are judged on every word of length <=%d over the input alphabet plus a "
         "foreign symbol against an exact PDA acceptance oracle (summary fixpoint) and the bounded CFG language. "
         "Non-trivial: the bounded language is non-empty; distinct = case hash." % N +
-        " Later additions: one transition pushing three symbols each popped in a state of its own; epsilon moves spelled 'epsilon' / Epsilon() / Symbol('epsilon'); print-alike and equal-hash values; add_transitions; the PDA is also compared with the case record.")
+        " Later additions: one transition pushing three symbols each popped in a state of its own; epsilon moves spelled 'epsilon' / Epsilon() / Symbol('epsilon'); print-alike and equal-hash values; add_transitions; the PDA is also compared with the case record; states on a line whose transitions are given back to front, the stack running empty in the last state only.")
 ASSUMPTIONS = ["comparison bounded to words of length <= %d" % N,
                "PDAs have a start state and a start stack symbol"]
 TIERS = {
@@ -163,6 +163,8 @@ def plan(tier, rng, sl, nslices, stats):
                    "light": True}
         elif i % 6 == 5:
             yield {"kind": "pda", "p": gpda.push_chain_case(rng)}
+        elif i % 12 == 10:
+            yield {"kind": "pda", "p": gpda.path_case(rng)}
         elif i % 3 == 0:
             yield {"kind": "cfg", "g": gcfg.random_case(rng, max_vars=3, max_terms=2, max_prods=5, max_body=3)}
         else:
